@@ -65,12 +65,15 @@ func c26fmtTable(rt map[string]multidb.Route) []string {
 
 func runC26(c *ev.Ctx) {
 	c.Rule = "random routing tables (default route, 0-4 exact routes, 0-3 pattern routes incl. pairs such as epoch-%d / epoch-%s that match the same request, NoDrop flags) over two database types backed by dirty-flag producers on in-memory disks; requests from a pool of exact, nested (a/x/y) and pattern-matching paths. " +
-		"Oracle: (1) RouteOf(req) is identical across 30 producers built from the same table and across repeated calls; (2) for a random sequence of OpenDB calls the outcome is predicted from the harness' own log: refused iff the same request was logged with another table or another request's table in the same database is a prefix of / prefixed by the new one; " +
+		"Oracle: (1) RouteOf(req) is identical across 30 producers built from the same table and across repeated calls, and (1b) identical to the sequential answer while 12 goroutines route different requests through the same %d / %s pattern routes of one producer; (2) for a random sequence of OpenDB calls the outcome is predicted from the harness' own log: refused iff the same request was logged with another table or another request's table in the same database is a prefix of / prefixed by the new one; " +
 		"every successfully opened store, after unique marker keys were written through all of them, shows exactly its own markers (metadata keys ignored); (3) after Flush+Close and a new producer over the same disks every logged request routes and opens as before with its markers visible; " +
-		"(4) Verify() on a producer with a mutated table fails iff some logged request now routes to another type, name or table. non-trivial = distinct tables with >=1 pattern route, >=1 refused overlap, >=2 stores in one database and a mutated table that moves a logged request"
+		"(4) Verify() on a producer with a mutated table (other name, type, table extended, table replaced by an unrelated one, route removed or added, whole type migrated) fails iff some logged request now routes to another type, name or table. (5) opening the logged requests through the last mutated producer is refused / allowed by the same rule as (2) over the records left in the databases, and an unchanged request still shows its markers. non-trivial = distinct tables with >=1 pattern route, >=1 refused overlap, >=2 stores in one database and a mutated table that moves a logged request"
 	c.Assumptions = []string{"table names are not prefixes of the metadata keys (property's exclusion)", "each database type has its own disk"}
 	n := c.Pick(3000, 100000)
 	c.Parallel(n, 0, func(i int) { c26Case(c, c.Rand("table", i), i) })
+	for i := 0; i < c.Pick(24, 400); i++ { // one after the other: each scenario runs 12 goroutines of its own
+		c26ConcurrentRoutes(c, i)
+	}
 }
 
 func c26Case(c *ev.Ctx, r *rand.Rand, caseN int) {
@@ -295,7 +298,7 @@ func c26Case(c *ev.Ctx, r *rand.Rand, caseN int) {
 		}
 		sort.Strings(keys)
 		victim := keys[r.Intn(len(keys))]
-		switch r.Intn(6) {
+		switch r.Intn(7) {
 		case 5: // full migration: no route references one of the types any more
 			from := multidb.TypeName([]string{"t1", "t2"}[r.Intn(2)])
 			for a, v := range rt2 {
@@ -328,6 +331,10 @@ func c26Case(c *ev.Ctx, r *rand.Rand, caseN int) {
 			if victim != "" {
 				delete(rt2, victim)
 			}
+		case 4: // same database, a table unrelated to the old one (neither is a prefix of the other)
+			v := rt2[victim]
+			v.Table = "~" + v.Table
+			rt2[victim] = v
 		default: // a new, more specific exact route
 			rt2[c26reqPool[r.Intn(len(c26reqPool))]] = multidb.Route{Type: "t1", Name: "fresh", Table: "F"}
 		}
@@ -358,6 +365,63 @@ func c26Case(c *ev.Ctx, r *rand.Rand, caseN int) {
 		}
 		if wantFail != "" {
 			moved = true
+		}
+		if k == 2 {
+			// (5) the logged requests are opened through the producer with the edited table; the outcome follows the
+			// same rule as in (2), applied to the records the earlier producers left in the databases
+			var reqs []string
+			for _, o := range okStores {
+				reqs = append(reqs, o.req)
+			}
+			sort.Strings(reqs)
+			for _, req := range reqs {
+				route := p3.RouteOf(req)
+				l := loc{route.Type, route.Name}
+				expectErr, sameAsBefore := "", false
+				for _, old := range logs[l] {
+					if old.req == req && old.table == route.Table {
+						sameAsBefore = true
+						break
+					}
+					if old.req == req && old.table != route.Table {
+						expectErr = "same request, other table"
+						break
+					}
+					if strings.HasPrefix(old.table, route.Table) || strings.HasPrefix(route.Table, old.table) {
+						expectErr = fmt.Sprintf("table %q overlaps table %q of request %q", route.Table, old.table, old.req)
+						break
+					}
+				}
+				var db kvdb.Store
+				var err error
+				if pn, _ := ev.Try(func() { db, err = p3.OpenDB(req) }); pn != nil {
+					m := desc()
+					m["request"], m["panic"], m["mutated_table"] = req, fmt.Sprint(pn), c26fmtTable(rt2)
+					c.Violation("open-panics", m)
+					return
+				}
+				if (err != nil) != (expectErr != "") {
+					m := desc()
+					m["opens"], m["request"], m["expected_refusal"], m["got_error"], m["mutated_table"], m["phase"] = seq, req, expectErr, fmt.Sprint(err), c26fmtTable(rt2), "restart with an edited routing table"
+					cls := "overlapping-table-not-refused"
+					if err != nil {
+						cls = "non-overlapping-request-refused"
+					}
+					c.Violation(cls, m)
+					return
+				}
+				c.Count("opens_predicted_after_an_edited_restart", 1)
+				if err != nil {
+					continue
+				}
+				if sameAsBefore {
+					if !checkVisible(okStores[req], db, "restart with an edited routing table") {
+						return
+					}
+				} else {
+					logs[l] = append(logs[l], rec{req, route.Table})
+				}
+			}
 		}
 		_ = p3.Close()
 	}
